@@ -374,7 +374,13 @@ def generate(rng, config):
     entries, index = make_files(rng)
     tool = rng.choice(["cnfgen", "cnfgen", "cnfgen", "pbgen", "pbgen",
                        "cnfshuffle", "kthlist2pebbling"])
-    if tool in ("cnfgen", "pbgen"):
+    if config == "boundary" and rng.random() < 0.5:
+        # half of the boundary runs walk through the graph constructions,
+        # each one equally often
+        tool = rng.choice(["cnfgen", "cnfgen", "pbgen"])
+        toks, _ = cligrammar.graph_command(rng)
+        argv = (["--seed", "3"] if rng.random() < 0.5 else []) + toks
+    elif tool in ("cnfgen", "pbgen"):
         c = cligrammar.command_line(rng, tool, files=index,
                                     seed=rng.choice([None, None, 3]))
         argv = c["argv"][1:]
